@@ -174,6 +174,9 @@ Section PlainSet.
   Lemma ps_tproj : tproj p' = tproj p. Proof. destruct sd; reflexivity. Qed.
 End PlainSet.
 
+Ltac unchanged :=
+  cbn [fst snd] in *; split; [assumption|split; [reflexivity|split; [assumption|discriminate]]].
+
 Lemma pres_create_group : forall pr sd q, preserves (fun p => create_group pr sd p q).
 Proof.
   intros pr sd q p Hi Ho. unfold create_group in *.
@@ -203,9 +206,9 @@ Qed.
 Lemma pres_delete_group : forall sd parent gh, preserves (fun p => delete_group sd p parent gh).
 Proof.
   intros sd parent gh p Hi Ho. unfold delete_group in *.
-  destruct (negb (heqb parent (pa_h p))); [cbn in *; repeat split; auto; discriminate|].
-  destruct (find_first (is_group gh) (groups sd p)); [|cbn in *; repeat split; auto; discriminate].
-  destruct (negb (is_nil (g_eps g))); [cbn in *; repeat split; auto; discriminate|].
+  destruct (negb (heqb parent (pa_h p))); [unchanged|].
+  destruct (find_first (is_group gh) (groups sd p)); [|unchanged].
+  destruct (negb (is_nil (g_eps g))); [unchanged|].
   cbn [fst snd] in *. rewrite ps_ovf in Ho.
   split; [|split; [apply ps_h|split; [auto|discriminate]]].
   apply part_inv_build with (p := p); auto.
@@ -224,8 +227,8 @@ Qed.
 Lemma pres_delete_endpoint : forall sd gh eh, preserves (fun p => delete_endpoint sd p gh eh).
 Proof.
   intros sd gh eh p Hi Ho. unfold delete_endpoint in *.
-  destruct (find_first (is_group gh) (groups sd p)); [|cbn in *; repeat split; auto; discriminate].
-  destruct (find_first (is_ep eh) (g_eps g)); [|cbn in *; repeat split; auto; discriminate].
+  destruct (find_first (is_group gh) (groups sd p)); [|unchanged].
+  destruct (find_first (is_ep eh) (g_eps g)); [|unchanged].
   cbn [fst snd] in *. rewrite ps_ovf in Ho.
   split; [|split; [apply ps_h|split; [auto|discriminate]]].
   apply part_inv_build with (p := p); auto.
@@ -250,9 +253,179 @@ Proof.
   intros p Hi Ho. unfold delete_contained in *. cbn [fst snd] in *.
   split; [|split; [reflexivity|split; [exact Ho|discriminate]]].
   apply part_inv_build with (p := p); auto.
-  - intros [|]; apply (pi_gc _ Hi).
-  - intros [|]; apply (pi_ec _ Hi).
+  - intros [|]; [apply (pi_gc _ Hi SPub)|apply (pi_gc _ Hi SSub)].
+  - intros [|]; [apply (pi_ec _ Hi SPub)|apply (pi_ec _ Hi SSub)].
   - apply (pi_tc _ Hi).
   - intros [|]; apply ginv_nil.
   - split; constructor.
+Qed.
+
+(* facts about set_tcounter / set_topics / set_cfts *)
+Lemma ts_skel : forall p cv l,
+    skel (set_topics (set_tcounter p cv) l)
+    = (pa_h p, (pa_pubc p, pa_subc p, pa_wc p, pa_rc p, fst cv), (sproj SPub p, sproj SSub p, map t_h l)).
+Proof. reflexivity. Qed.
+
+Lemma create_topic_tail : forall p2 name h (en : bool),
+    let r := if en then match enable_topic p2 name with (p3, RUnit) => (p3, RHandle h) | (p3, r) => (p3, r) end
+             else (p2, RHandle h) in
+    skel (fst r) = skel p2 /\ pa_ovf (fst r) = pa_ovf p2 /\ snd r <> RPanic.
+Proof.
+  intros p2 name h en. destruct en; cbn zeta; [|cbn; repeat split; auto; discriminate].
+  destruct (ks_enable_topic name p2) as [Hs Hov].
+  unfold enable_topic in *. destruct (find_first (is_topic name) (pa_topics p2)); cbn in *;
+    repeat split; auto; discriminate.
+Qed.
+
+Lemma pres_create_topic : forall pr name q, preserves (fun p => create_topic pr p name q).
+Proof.
+  intros pr name q p Hi Ho. unfold create_topic in *.
+  destruct (existsb (is_topic name) (pa_topics p)); [unchanged|].
+  set (cv := bump 65535 (pa_tc p)) in *.
+  set (h := child_handle (pa_h p) 0 (lo8 (pa_tc p)) (hi8 (pa_tc p)) KIND_TOPIC) in *.
+  set (t := mkTp h name false (match q with Some x => x | None => pa_deftopic p end)) in *.
+  set (p2 := set_topics (set_tcounter p cv) (pa_topics (set_tcounter p cv) ++ [t])) in *.
+  destruct (create_topic_tail p2 name h (pa_en p && p_auto (pa_q p))) as (Hs & Hov & Hnp).
+  cbn zeta in Hs, Hov, Hnp.
+  assert (Hflag : pa_ovf p = false /\ snd cv = false).
+  { destruct (panics pr cv) eqn:Hpan.
+    - cbn [fst] in Ho. cbn in Ho. apply orb_false_iff in Ho; auto.
+    - rewrite Hov in Ho. cbn in Ho. apply orb_false_iff in Ho; auto. }
+  destruct Hflag as [Hp Hcv]. destruct (bump_ok _ _ Hcv) as [Hlt Hfst]. fold cv in Hfst.
+  assert (Hpan : panics pr cv = false) by (destruct pr; cbn; auto).
+  rewrite Hpan in *.
+  assert (Hi2 : part_inv p2).
+  { apply part_inv_build with (p := p); auto; try reflexivity.
+    - intros [|]; [apply (pi_gc _ Hi SPub)|apply (pi_gc _ Hi SSub)].
+    - intros [|]; [apply (pi_ec _ Hi SPub)|apply (pi_ec _ Hi SSub)].
+    - cbn. rewrite Hfst. pose proof (pi_tc _ Hi). lia.
+    - intros [|]; [apply (pi_groups _ Hi SPub)|apply (pi_groups _ Hi SSub)].
+    - unfold p2, tproj. cbn [pa_topics set_topics set_tcounter pa_tc]. rewrite Hfst, map_app. cbn [map t_h t].
+      apply tinv_new; [apply (pi_tc _ Hi)|apply (pi_topics _ Hi)]. }
+  split; [eapply part_inv_skel; eauto|].
+  split; [|split; auto].
+  unfold skel in Hs. inversion Hs. reflexivity.
+Qed.
+
+Lemma pres_delete_topic : forall parent name, preserves (fun p => delete_topic p parent name).
+Proof.
+  intros parent name p Hi Ho. unfold delete_topic in *.
+  destruct (negb (heqb (pa_h p) parent)); [unchanged|].
+  destruct (find_first (is_topic name) (pa_topics p)); [|unchanged].
+  destruct (existsb (uses_topic (t_name t)) (pa_pubs p)); [unchanged|].
+  destruct (existsb (uses_topic (t_name t)) (pa_subs p)); [unchanged|].
+  cbn [fst snd] in *. split; [|split; [reflexivity|split; [exact Ho|discriminate]]].
+  apply part_inv_build with (p := p); auto; try reflexivity.
+  - intros [|]; [apply (pi_gc _ Hi SPub)|apply (pi_gc _ Hi SSub)].
+  - intros [|]; [apply (pi_ec _ Hi SPub)|apply (pi_ec _ Hi SSub)].
+  - apply (pi_tc _ Hi).
+  - intros [|]; [apply (pi_groups _ Hi SPub)|apply (pi_groups _ Hi SSub)].
+  - destruct (pi_topics _ Hi) as [Hn Hf]. unfold tproj in *. cbn [pa_topics set_topics pa_tc]. split.
+    + apply nodup_map_filter; auto.
+    + apply Forall_forall. intros h Hh. rewrite Forall_forall in Hf. apply Hf.
+      apply in_map_iff in Hh. destruct Hh as (x & <- & Hx). apply in_map. eapply filter_in'; eauto.
+Qed.
+
+Lemma pres_create_cft : forall pr name related, preserves (fun p => create_cft pr p name related).
+Proof.
+  intros pr name related p Hi Ho. unfold create_cft in *.
+  destruct (negb (existsb (is_topic related) (pa_topics p))); [unchanged|].
+  set (cv := bump 65535 (pa_tc p)) in *.
+  assert (Hflag : pa_ovf p = false /\ snd cv = false).
+  { destruct (panics pr cv); cbn in Ho; apply orb_false_iff in Ho; auto. }
+  destruct Hflag as [Hp Hcv]. destruct (bump_ok _ _ Hcv) as [Hlt Hfst]. fold cv in Hfst.
+  assert (Hpan : panics pr cv = false) by (destruct pr; cbn; auto).
+  rewrite Hpan in *. cbn [fst snd] in *.
+  split; [|split; [reflexivity|split; [auto|discriminate]]].
+  apply part_inv_build with (p := p); auto; try reflexivity.
+  - intros [|]; [apply (pi_gc _ Hi SPub)|apply (pi_gc _ Hi SSub)].
+  - intros [|]; [apply (pi_ec _ Hi SPub)|apply (pi_ec _ Hi SSub)].
+  - cbn. rewrite Hfst. pose proof (pi_tc _ Hi). lia.
+  - intros [|]; [apply (pi_groups _ Hi SPub)|apply (pi_groups _ Hi SSub)].
+  - cbn [pa_tc set_cfts set_tcounter]. unfold tproj; cbn [pa_topics set_cfts set_tcounter].
+    eapply tinv_mono; [|apply (pi_topics _ Hi)]. lia.
+Qed.
+
+(* the endpoint counter moved on, nothing else *)
+Lemma part_inv_ecounter : forall sd p cv,
+    part_inv p -> snd cv = false -> fst cv = ecounter sd p + 1 -> ecounter sd p < 65535 ->
+    part_inv (set_ecounter sd p cv).
+Proof.
+  intros sd p cv Hi Hcv Hfst Hlt.
+  apply part_inv_build with (p := p); auto.
+  - apply es0_h.
+  - intros s. destruct sd, s; cbn; first [apply (pi_gc _ Hi SPub)|apply (pi_gc _ Hi SSub)].
+  - intros s. pose proof (pi_ec _ Hi SPub). pose proof (pi_ec _ Hi SSub). destruct sd, s; cbn in *; lia.
+  - destruct sd; apply (pi_tc _ Hi).
+  - intros s. pose proof (pi_groups _ Hi s) as Hg.
+    assert (E : sproj s (set_ecounter sd p cv) = sproj s p) by (destruct sd, s; reflexivity).
+    assert (Eg : gcounter s (set_ecounter sd p cv) = gcounter s p) by (destruct sd, s; reflexivity).
+    rewrite E, Eg. eapply ginv_mono; [| |exact Hg]; [lia|].
+    destruct sd, s; cbn in *; lia.
+  - assert (E : tproj (set_ecounter sd p cv) = tproj p) by (destruct sd; reflexivity).
+    assert (Et : pa_tc (set_ecounter sd p cv) = pa_tc p) by (destruct sd; reflexivity).
+    rewrite E, Et. apply (pi_topics _ Hi).
+Qed.
+
+Lemma pres_create_endpoint : forall pr sd gh name q, preserves (fun p => create_endpoint pr sd p gh name q).
+Proof.
+  intros pr sd gh name q p Hi Ho. unfold create_endpoint in *.
+  destruct (lookup_topic sd p name); [|unchanged].
+  destruct (find_first (is_group gh) (groups sd p)) as [g|] eqn:Hg; [|unchanged].
+  set (cv := bump 65535 (ecounter sd p)) in *.
+  set (h := child_handle (pa_h p) (h_k0 (g_h g)) (lo8 (ecounter sd p)) (hi8 (ecounter sd p)) (ep_kind sd)) in *.
+  set (qchk := match q with
+               | Some x => if is_consistent (ekind_of sd) x then Some x else None
+               | None => Some (g_defq g) end) in *.
+  (* the push itself *)
+  assert (Hpush : forall qos, snd cv = false -> pa_ovf p = false ->
+            part_inv (fst (push_endpoint sd (set_ecounter sd p cv) g h name qos)) /\
+            pa_h (fst (push_endpoint sd (set_ecounter sd p cv) g h name qos)) = pa_h p /\
+            snd (push_endpoint sd (set_ecounter sd p cv) g h name qos) <> RPanic).
+  { intros qos Hcv Hp. destruct (bump_ok _ _ Hcv) as [Hlt Hfst]. fold cv in Hfst.
+    unfold push_endpoint. cbn [fst snd]. split; [|split; [rewrite ps_h; apply es0_h|discriminate]].
+    apply part_inv_build with (p := p); auto.
+    - rewrite ps_h. apply es0_h.
+    - intros s. rewrite ps_gc. destruct sd, s; cbn; first [apply (pi_gc _ Hi SPub)|apply (pi_gc _ Hi SSub)].
+    - intros s. rewrite ps_ec. pose proof (pi_ec _ Hi SPub). pose proof (pi_ec _ Hi SSub).
+      destruct sd, s; cbn in *; lia.
+    - rewrite ps_tc. destruct sd; apply (pi_tc _ Hi).
+    - intros s. rewrite ps_gc, ps_ec. revert s. apply (side_cases _ sd).
+      + rewrite sproj_set_groups_same, es_groups0.
+        rewrite (map_upd_first gproj (is_group (g_h g)) (fun ge => heqb (fst ge) (g_h g)) _
+                   (fun ge => (fst ge, snd ge ++ [(h, h)]))).
+        * assert (Eg : gcounter sd (set_ecounter sd p cv) = gcounter sd p) by (destruct sd; reflexivity).
+          assert (Ee : ecounter sd (set_ecounter sd p cv) = ecounter sd p + 1) by (destruct sd; cbn; auto).
+          rewrite Eg, Ee. unfold h. apply ginv_new_ep; [apply (pi_ec _ Hi sd)|apply (pi_groups _ Hi sd)].
+        * reflexivity.
+        * intros x. unfold gproj; cbn. rewrite map_app. reflexivity.
+      + assert (E : forall l, sproj (other sd) (set_groups sd (set_ecounter sd p cv) l) = sproj (other sd) p)
+          by (intros; destruct sd; reflexivity).
+        assert (Eg : gcounter (other sd) (set_ecounter sd p cv) = gcounter (other sd) p) by (destruct sd; reflexivity).
+        assert (Ee : ecounter (other sd) (set_ecounter sd p cv) = ecounter (other sd) p) by (destruct sd; reflexivity).
+        rewrite E, Eg, Ee. apply (pi_groups _ Hi (other sd)).
+    - rewrite ps_tproj, ps_tc.
+      assert (E : tproj (set_ecounter sd p cv) = tproj p) by (destruct sd; reflexivity).
+      assert (Et : pa_tc (set_ecounter sd p cv) = pa_tc p) by (destruct sd; reflexivity).
+      rewrite E, Et. apply (pi_topics _ Hi). }
+  assert (Hpo : forall qos, pa_ovf (fst (push_endpoint sd (set_ecounter sd p cv) g h name qos)) = pa_ovf p || snd cv).
+  { intros qos. unfold push_endpoint. cbn [fst]. rewrite ps_ovf. apply es0_ovf. }
+  destruct sd.
+  - (* writer: counter first *)
+    destruct (panics pr cv) eqn:Hpan.
+    + cbn [fst] in Ho. rewrite es0_ovf in Ho. apply orb_false_iff in Ho. destruct Ho as [_ Ho].
+      apply panics_flag in Hpan. congruence.
+    + destruct qchk as [qos|].
+      * rewrite Hpo in Ho. apply orb_false_iff in Ho. destruct Ho as [Hp Hcv].
+        destruct (Hpush qos Hcv Hp) as (H1 & H2 & H3). auto.
+      * cbn [fst snd] in *. rewrite es0_ovf in Ho. apply orb_false_iff in Ho. destruct Ho as [Hp Hcv].
+        destruct (bump_ok _ _ Hcv) as [Hlt Hfst]. fold cv in Hfst.
+        split; [apply part_inv_ecounter; auto|split; [apply es0_h|split; [auto|discriminate]]].
+  - (* reader: QoS first *)
+    destruct qchk as [qos|]; [|unchanged].
+    destruct (panics pr cv) eqn:Hpan.
+    + cbn [fst] in Ho. rewrite es0_ovf in Ho. apply orb_false_iff in Ho. destruct Ho as [_ Ho].
+      apply panics_flag in Hpan. congruence.
+    + rewrite Hpo in Ho. apply orb_false_iff in Ho. destruct Ho as [Hp Hcv].
+      destruct (Hpush qos Hcv Hp) as (H1 & H2 & H3). auto.
 Qed.
